@@ -4,10 +4,12 @@ import (
 	"fmt"
 	"go/ast"
 	"go/types"
+	"os"
 	"sort"
 	"strings"
 
 	"bmverif/internal/core"
+	"golang.org/x/tools/go/packages"
 	"golang.org/x/tools/go/ssa"
 )
 
@@ -240,7 +242,7 @@ func checkC07(r *core.Run) {
 							inv := func(e ast.Expr) bool { return !mentions(info, e, c.key) && !mentions(info, e, c.val) }
 							if (isKey(be.X) && inv(be.Y)) || (isKey(be.Y) && inv(be.X)) {
 								nIns++
-								r.OK("C07/MAPORDER", fmt.Sprintf("C07/MAPORDER:%s:range %s#%d", core.FuncKey(pk, fd), types.ExprString(rs.X), k), prog.Pos(rs.Pos()), "search by key: at most one element matches")
+								r.OK("C07/MAPORDER", moKey(pk, fd, rs, k), prog.Pos(rs.Pos()), "search by key: at most one element matches")
 								return true
 							}
 						}
@@ -249,11 +251,11 @@ func checkC07(r *core.Run) {
 				// a body that does not look at the element at all performs the same effect n times
 				if c.key == nil && c.val == nil {
 					nIns++
-					r.OK("C07/MAPORDER", fmt.Sprintf("C07/MAPORDER:%s:range %s#%d", core.FuncKey(pk, fd), types.ExprString(rs.X), k), prog.Pos(rs.Pos()), "body does not depend on the element")
+					r.OK("C07/MAPORDER", moKey(pk, fd, rs, k), prog.Pos(rs.Pos()), "body does not depend on the element")
 					return true
 				}
 				c.stmt(rs.Body)
-				inst := fmt.Sprintf("C07/MAPORDER:%s:range %s#%d", core.FuncKey(pk, fd), types.ExprString(rs.X), k)
+				inst := moKey(pk, fd, rs, k)
 				pos := prog.Pos(rs.Pos())
 				if !c.v.sensitive {
 					nIns++
@@ -277,23 +279,75 @@ func checkC07(r *core.Run) {
 	r.Count("map_range_loops_commutative", nIns)
 }
 
+// moKey names a map loop without using local identifiers (a rename must not change the key): the
+// ranged expression is written with the TYPE of its root variable, e.g. `(ReqRoot).bmReqMap`,
+// `(map[string]string)` for a local map; package-level variables keep their name.
+func moKey(pk *packages.Package, fd *ast.FuncDecl, rs *ast.RangeStmt, k int) string {
+	key := fmt.Sprintf("C07/MAPORDER:%s:range %s#%d", core.FuncKey(pk, fd), canonRangeExpr(pk.TypesInfo, rs.X), k)
+	if f := os.Getenv("BMVERIF_KEYMAP"); f != "" {
+		if fh, err := os.OpenFile(f, os.O_APPEND|os.O_CREATE|os.O_WRONLY, 0o644); err == nil {
+			fmt.Fprintf(fh, "%s\t%s\n", fmt.Sprintf("C07/MAPORDER:%s:range %s#%d", core.FuncKey(pk, fd), types.ExprString(rs.X), k), key)
+			fh.Close()
+		}
+	}
+	return key
+}
+
+func canonRangeExpr(info *types.Info, e ast.Expr) string {
+	switch x := ast.Unparen(e).(type) {
+	case *ast.Ident:
+		o := info.ObjectOf(x)
+		if v, ok := o.(*types.Var); ok {
+			if v.Parent() != nil && v.Pkg() != nil && v.Parent() == v.Pkg().Scope() {
+				return x.Name // package-level variable
+			}
+			return "(" + shortType(v.Type()) + ")"
+		}
+		return x.Name
+	case *ast.SelectorExpr:
+		if _, ok := info.Selections[x]; ok {
+			return canonRangeExpr(info, x.X) + "." + x.Sel.Name
+		}
+		return x.Sel.Name // qualified package-level identifier
+	case *ast.IndexExpr:
+		return canonRangeExpr(info, x.X) + "[]"
+	case *ast.StarExpr:
+		return canonRangeExpr(info, x.X)
+	case *ast.CallExpr:
+		if c := core.CalleeOf(info, x); c != nil {
+			return c.Name() + "()"
+		}
+	}
+	return types.ExprString(e)
+}
+
+func shortType(t types.Type) string {
+	if p, ok := t.(*types.Pointer); ok {
+		t = p.Elem()
+	}
+	if n, ok := t.(*types.Named); ok {
+		return n.Obj().Name()
+	}
+	return types.TypeString(t, func(p *types.Package) string { return "" })
+}
+
 // benign exceptions, one loop each, with the reason it cannot perturb an artefact.
 var c07BenignLoops = map[string]string{
-	"pkg/basm.BasmInstance.Assembler2BCOF:range bi.BMinfo.CPNames#1":           "search loop: the body is guarded by name == cp.GetValue() and CP names are unique in BMinfo (a second match is an explicit error), so the guarded effects run for one element only",
-	"pkg/basm.clusterChecker:range bi.clusteredNames#3":                        "search loop nested in `for i := 0; i < len(...)`: it looks for the single name whose id equals i (ids are assigned 0..n-1 once per name) and breaks; the append happens once per i, in i order",
-	"pkg/basm.dynamicalInstructions:range bi.sections#1":                       "the only order-dependent effect is the position at which a dynamically created opcode is appended to procbuilder.Allopcodes; every consumer that turns Allopcodes into an artefact sorts by name first — that is exactly rule S (C07/SORTED), which fails if such a sort disappears",
-	"pkg/basm.dynamicalInstructions:range bi.fragments#2":                      "same as the sections loop: Allopcodes order is consumed only through name-sorted copies (rule S)",
-	"pkg/bmnumbers.ImportString:range AllMatchers#1":                           "first-match return over the matcher table: the matcher languages are pairwise disjoint (decided exactly by C08), so at most one entry matches and the result does not depend on the order",
-	"pkg/bmreqs.ReqRoot.Clone:range n.bmReqMap#1":                              "the assignment `node = node[1:]` only fires while node == \"/\", i.e. at most once with the same result; the remaining effects are OpAdd set insertions",
-	"pkg/bondgo.BondgoCheck.Create_Bondmachine:range bg.IOr#2":                 "Add_bond stores Links[<the named processor input>]; an input id is listed by one processor, so every iteration writes a different link slot",
-	"pkg/bondgo.BondgoCheck.Create_Bondmachine:range bg.IOr#3":                 "inner loop of the same pairing: same distinct-slot argument",
-	"pkg/bondgo.BondgoCheck.Create_Bondmachine:range bg.IOr#5":                 "ext_input[in_id] is written by the single processor that lists in_id among its inputs (the map key is fixed by the enclosing iteration); ext_input_keys is sorted before use",
-	"pkg/bondgo.BondgoCheck.Create_Etherbond_Cluster:range otherres.Map.Assoc#2": "counting loop: `connected`/`multi` end up true iff one / more than one entry matches, whatever the order; break only cuts the count short once multi is known",
-	"pkg/bondgo.BondgoCheck.Create_Udpbond_Cluster:range otherres.Map.Assoc#2":  "same counting loop as the etherbond variant",
-	"pkg/bondgo.BondgoCheck.Expr_eval:range bgfunct.Vars#1":                    "REQ_REMOVE requests for the callee's variables: each removes its own cell from the allocator's busy list and no code is emitted; the requests commute",
-	"pkg/bondgo.BondgoCheck.Visit:range bg.Clean.Vars#1":                       "REQ_REMOVE requests for the variables of a finished scope: each removes its own cell; no code is emitted; the requests commute",
-	"pkg/bondmachine.Bondmachine.Write_verilog_board:range resolved_io#3":      "the body only tests `iores == \"board\"` and emits text that mentions neither key nor value: every matching element contributes the same text",
-	"pkg/basm.callResolver:range bi.sections#1":                                "maps.Copy fills `params`, a map made inside the iteration; all other effects go through the section being visited or are keyed by the section name",
+	"pkg/basm.BasmInstance.Assembler2BCOF:range (BasmInstance).BMinfo.CPNames#1":   "search loop: the body is guarded by name == cp.GetValue() and CP names are unique in BMinfo (a second match is an explicit error), so the guarded effects run for one element only",
+	"pkg/basm.clusterChecker:range (BasmInstance).clusteredNames#3":                "search loop nested in `for i := 0; i < len(...)`: it looks for the single name whose id equals i (ids are assigned 0..n-1 once per name) and breaks; the append happens once per i, in i order",
+	"pkg/basm.dynamicalInstructions:range (BasmInstance).sections#1":               "the only order-dependent effect is the position at which a dynamically created opcode is appended to procbuilder.Allopcodes; every consumer that turns Allopcodes into an artefact sorts by name first — that is exactly rule S (C07/SORTED), which fails if such a sort disappears",
+	"pkg/basm.dynamicalInstructions:range (BasmInstance).fragments#2":              "same as the sections loop: Allopcodes order is consumed only through name-sorted copies (rule S)",
+	"pkg/bmnumbers.ImportString:range AllMatchers#1":                               "first-match return over the matcher table: the matcher languages are pairwise disjoint (decided exactly by C08), so at most one entry matches and the result does not depend on the order",
+	"pkg/bmreqs.ReqRoot.Clone:range (bmReqObj).bmReqMap#1":                         "the assignment `node = node[1:]` only fires while node == \"/\", i.e. at most once with the same result; the remaining effects are OpAdd set insertions",
+	"pkg/bondgo.BondgoCheck.Create_Bondmachine:range (BondgoCheck).IOr#2":          "Add_bond stores Links[<the named processor input>]; an input id is listed by one processor, so every iteration writes a different link slot",
+	"pkg/bondgo.BondgoCheck.Create_Bondmachine:range (BondgoCheck).IOr#3":          "inner loop of the same pairing: same distinct-slot argument",
+	"pkg/bondgo.BondgoCheck.Create_Bondmachine:range (BondgoCheck).IOr#5":          "ext_input[in_id] is written by the single processor that lists in_id among its inputs (the map key is fixed by the enclosing iteration); ext_input_keys is sorted before use",
+	"pkg/bondgo.BondgoCheck.Create_Etherbond_Cluster:range (Residual).Map.Assoc#2": "counting loop: `connected`/`multi` end up true iff one / more than one entry matches, whatever the order; break only cuts the count short once multi is known",
+	"pkg/bondgo.BondgoCheck.Create_Udpbond_Cluster:range (Residual).Map.Assoc#2":   "same counting loop as the etherbond variant",
+	"pkg/bondgo.BondgoCheck.Expr_eval:range (BondgoCheck).Vars#1":                  "REQ_REMOVE requests for the callee's variables: each removes its own cell from the allocator's busy list and no code is emitted; the requests commute",
+	"pkg/bondgo.BondgoCheck.Visit:range (BondgoCheck).Clean.Vars#1":                "REQ_REMOVE requests for the variables of a finished scope: each removes its own cell; no code is emitted; the requests commute",
+	"pkg/bondmachine.Bondmachine.Write_verilog_board:range (map[string]string)#3":  "the body only tests `iores == \"board\"` and emits text that mentions neither key nor value: every matching element contributes the same text",
+	"pkg/basm.callResolver:range (BasmInstance).sections#1":                        "maps.Copy fills `params`, a map made inside the iteration; all other effects go through the section being visited or are keyed by the section name",
 }
 
 var c07BenignTimeRand = map[string]string{}
